@@ -165,12 +165,12 @@ Lemma req_run_spec o : forall fuel s b,
   req_run fuel o s b <> POut /\ (forall k, req_run fuel o s b = PFail k -> k = HTTPExc).
 Proof.
   induction fuel as [|fuel IH]; intros s b Hf; [lia|].
-  cbn [req_run]. destruct s as [|m v10 h|ri n|ri c body].
+  cbn [req_run]. destruct s as [|m v10 u h|ri n|ri c body].
   - destruct (line_lf b) as [|k rr|l rest] eqn:E.
     + split; [discriminate|intros; discriminate].
     + split; [discriminate|]. intros k' H. injection H as <-. eapply line_lf_fail; eauto.
     + apply line_lf_got in E.
-      destruct (request_line o l) as [[m v10]|k] eqn:E2.
+      destruct (request_line o l) as [[[m v10] u]|k] eqn:E2.
       * apply IH. lia.
       * split; [discriminate|]. intros k' H. injection H as <-. eapply request_line_exc; eauto.
   - destruct (leader_step h b) as [|k rr|[h'|h'] rest] eqn:E.
@@ -193,6 +193,136 @@ Lemma req_parse_spec o s b :
   req_parse o s b <> POut /\ (forall k, req_parse o s b = PFail k -> k = HTTPExc).
 Proof. unfold req_parse. apply req_run_spec. lia. Qed.
 
+(* ---------- the reply path of the bare server ---------- *)
+Definition all_ascii (s : ustr) : bool := forallb (fun c => c <? 128) s.
+
+Lemma all_ascii_app a b : all_ascii (a ++ b) = all_ascii a && all_ascii b.
+Proof. unfold all_ascii. apply forallb_app. Qed.
+
+Lemma hexl_ascii v : v < 16 -> hexl v <? 128 = true.
+Proof. intros H. unfold hexl. destruct (v <? 10) eqn:E; apply N.ltb_lt; [apply N.ltb_lt in E|]; lia. Qed.
+
+Lemma uesc_ascii c : all_ascii (uesc c) = true.
+Proof.
+  unfold uesc, all_ascii. cbn [forallb].
+  rewrite !hexl_ascii by (apply N.mod_lt; lia). reflexivity.
+Qed.
+
+Lemma jesc1_ascii c : all_ascii (jesc1 true c) = true.
+Proof.
+  unfold jesc1.
+  repeat match goal with |- context [if N.eqb c ?k then _ else _] => destruct (N.eqb c k); [reflexivity|] end.
+  destruct (c <? 32); [apply uesc_ascii|].
+  cbn [andb]. destruct (126 <? c) eqn:E.
+  - destruct (c <? 65536); [apply uesc_ascii|]. rewrite all_ascii_app, !uesc_ascii. reflexivity.
+  - apply N.ltb_ge in E. unfold all_ascii. cbn [forallb]. rewrite andb_true_r. apply N.ltb_lt. lia.
+Qed.
+
+Lemma flat_map_ascii {A} (f : A -> ustr) l : (forall x, all_ascii (f x) = true) -> all_ascii (flat_map f l) = true.
+Proof.
+  intros H. induction l as [|x l IH]; [reflexivity|]. cbn [flat_map]. now rewrite all_ascii_app, H, IH.
+Qed.
+
+Lemma jstr_ascii s : all_ascii (jstr true s) = true.
+Proof.
+  unfold jstr. change (34 :: flat_map (jesc1 true) s ++ [34]) with ([34] ++ flat_map (jesc1 true) s ++ [34]).
+  rewrite all_ascii_app, all_ascii_app, flat_map_ascii by apply jesc1_ascii. reflexivity.
+Qed.
+
+Lemma sepcat_ascii l : Forall (fun x => all_ascii x = true) l -> all_ascii (sepcat l) = true.
+Proof.
+  induction 1 as [|x l Hx Hl IH]; [reflexivity|].
+  cbn [sepcat]. destruct l as [|y l']; [exact Hx|].
+  change (x ++ 44 :: sepcat (y :: l')) with (x ++ [44] ++ sepcat (y :: l')).
+  rewrite !all_ascii_app, Hx, IH. reflexivity.
+Qed.
+
+Lemma ascii_only_ascii s : all_ascii (ascii_only s) = true.
+Proof.
+  unfold ascii_only, all_ascii. rewrite forallb_forall. intros c Hc. apply in_map_iff in Hc.
+  destruct Hc as [x [<- _]]. destruct (x <? 128) eqn:E; [exact E|reflexivity].
+Qed.
+
+(* induction over JSON values with the nested lists *)
+Section jv_induction.
+  Variable P : jv -> Prop.
+  Hypothesis Hnull : P JNull.
+  Hypothesis Hbool : forall b, P (JBool b).
+  Hypothesis Hnum : forall r, P (JNum r).
+  Hypothesis Hstr : forall s, P (JStr s).
+  Hypothesis Harr : forall l, Forall P l -> P (JArr l).
+  Hypothesis Hobj : forall l, Forall (fun kv => P (snd kv)) l -> P (JObj l).
+  Fixpoint jv_ind2 (v : jv) : P v :=
+    match v with
+    | JNull => Hnull
+    | JBool b => Hbool b
+    | JNum r => Hnum r
+    | JStr s => Hstr s
+    | JArr l => Harr l ((fix go (l : list jv) : Forall P l :=
+                           match l with
+                           | [] => Forall_nil _
+                           | x :: r => Forall_cons _ (jv_ind2 x) (go r)
+                           end) l)
+    | JObj l => Hobj l ((fix go (l : list (ustr * jv)) : Forall (fun kv => P (snd kv)) l :=
+                           match l with
+                           | [] => Forall_nil _
+                           | x :: r => Forall_cons _ (jv_ind2 (snd x)) (go r)
+                           end) l)
+    end.
+End jv_induction.
+
+(* json.dumps with ensure_ascii yields ASCII for every value: lone surrogates, NUL, non-BMP
+   characters, any nesting *)
+Theorem dumps_ascii : forall v, all_ascii (dumps true v) = true.
+Proof.
+  apply jv_ind2.
+  - reflexivity.
+  - intros []; reflexivity.
+  - intros r. apply ascii_only_ascii.
+  - intros s. apply jstr_ascii.
+  - intros l H. cbn [dumps].
+    change (91 :: sepcat (map (dumps true) l) ++ [93]) with ([91] ++ sepcat (map (dumps true) l) ++ [93]).
+    rewrite !all_ascii_app, sepcat_ascii; [reflexivity|].
+    rewrite Forall_map. exact H.
+  - intros l H. cbn [dumps].
+    match goal with |- all_ascii (123 :: ?x ++ [125]) = true => change (123 :: x ++ [125]) with ([123] ++ x ++ [125]) end.
+    rewrite !all_ascii_app, sepcat_ascii; [reflexivity|].
+    rewrite Forall_map. eapply Forall_impl; [|exact H].
+    intros [k v] Hv. cbn [fst snd] in *.
+    change (jstr true k ++ 58 :: dumps true v) with (jstr true k ++ [58] ++ dumps true v).
+    rewrite !all_ascii_app, jstr_ascii, Hv. reflexivity.
+Qed.
+
+Lemma ascii_no_surrogate s : all_ascii s = true -> existsb is_surrogate s = false.
+Proof.
+  unfold all_ascii. intros H. induction s as [|c s IH]; [reflexivity|].
+  cbn [forallb existsb] in *. apply andb_true_iff in H. destruct H as [Hc Hs].
+  rewrite (IH Hs), orb_false_r. unfold is_surrogate. apply N.ltb_lt in Hc.
+  destruct (55296 <=? c) eqn:E; [apply N.leb_le in E; lia|reflexivity].
+Qed.
+
+Lemma build_reply_ascii v k : build_reply true false v <> Exc k.
+Proof.
+  unfold build_reply, encode_strict. rewrite ascii_no_surrogate by apply dumps_ascii. discriminate.
+Qed.
+
+Lemma build_reply_kinds rec_hit v k : build_reply true rec_hit v = Exc k -> k = RuntimeErr.
+Proof.
+  destruct rec_hit; [cbn; congruence|]. intros H. exfalso. eapply build_reply_ascii; eauto.
+Qed.
+
+Theorem respond_site_total rec_hit ri body data k : respond_site rec_hit ri body data <> Exc k.
+Proof.
+  unfold respond_site.
+  destruct (build_reply true rec_hit (echo_jv ri body data)) as [b|k'] eqn:E; [discriminate|].
+  apply build_reply_kinds in E. subst. apply build_reply_ascii.
+Qed.
+
+(* the ensure_ascii default is load-bearing: with ensure_ascii=False a lone surrogate (which
+   json.loads accepts as the escape \ud83d) makes .encode('utf-8') raise *)
+Lemma build_reply_raw_raises : build_reply false false (JStr [55357]) = Exc UnicodeErr.
+Proof. reflexivity. Qed.
+
 (* ---------- one server round never raises ---------- *)
 Theorem server_round_total kind o c r k : server_round kind o c r <> Exc k.
 Proof.
@@ -206,7 +336,11 @@ Proof.
   - discriminate.
   - specialize (Hfail _ eq_refl). subst. discriminate.
   - destruct kind; [discriminate|].
-    rewrite dictify_site_ok. destruct (ri_persist ri); discriminate.
+    rewrite dictify_site_ok.
+    match goal with |- context [respond_site ?a ?b ?c ?d] =>
+      destruct (respond_site a b c d) as [reply|k'] eqn:Er;
+      [|exfalso; eapply respond_site_total; eauto] end.
+    destruct (ri_persist ri); discriminate.
   - congruence.
 Qed.
 
@@ -238,7 +372,10 @@ Proof.
   - destruct k'; try discriminate. intros H; injection H as <-. exists []. now rewrite app_nil_r.
   - destruct kind.
     + intros H; injection H as <-. eexists. reflexivity.
-    + rewrite dictify_site_ok. destruct (ri_persist ri); intros H; injection H as <-; eexists; reflexivity.
+    + rewrite dictify_site_ok.
+      match goal with |- context [respond_site ?a ?b ?c ?d] =>
+        destruct (respond_site a b c d) as [reply|k'']; [|discriminate] end.
+      destruct (ri_persist ri); intros H; injection H as <-; eexists; reflexivity.
   - discriminate.
 Qed.
 
